@@ -495,7 +495,7 @@ type rinfo = { ri_at : nat; ri_time : n; ri_key : key option;
                ri_proto : proto; ri_stat : rstat; ri_pend : bool;
                ri_lastpend : nat; ri_dial : dstat; ri_resolved : bool option;
                ri_popc : nat option; ri_d6 : bool; ri_avail : bool;
-               ri_aband : bool }
+               ri_aband : bool; ri_poph : nat option; ri_popx : nat option }
 
 val set_ri_stat : rstat -> rinfo -> rinfo
 
@@ -512,7 +512,8 @@ val set_ri_aband : bool -> rinfo -> rinfo
 type cinfo = { ci_origin : nat; ci_share : bool; ci_new_at : nat;
                ci_closed : nat option; ci_back : nat; ci_back_time : 
                n; ci_holder : nat option; ci_rel_ready : bool;
-               ci_upgraded : bool; ci_dropped : bool; ci_offer : nat option }
+               ci_upgraded : bool; ci_dropped : bool; ci_offer : nat option;
+               ci_idle_time : n }
 
 val set_ci_closed : nat option -> cinfo -> cinfo
 
@@ -529,6 +530,8 @@ val set_ci_upgraded : bool -> cinfo -> cinfo
 val set_ci_dropped : bool -> cinfo -> cinfo
 
 val set_ci_offer : nat option -> cinfo -> cinfo
+
+val set_ci_idle_time : n -> cinfo -> cinfo
 
 type mst = { m_i : nat; m_time : n; m_keys : key list; m_reqs : rinfo list;
              m_conns : cinfo list; m_prev : opobs }
@@ -575,6 +578,8 @@ val unexpired : config -> mst -> cinfo -> bool
 
 val usable : config -> mst -> nat -> bool
 
+val open_conn : mst -> nat -> bool
+
 val track_ev : mst -> ev -> mst
 
 val holder_conn : mst -> nat -> nat option
@@ -588,6 +593,8 @@ val h2_handle_out : mst -> nat -> key option -> bool
 val track_op : config -> mst -> op -> opobs -> mst
 
 val track_offer : opobs -> mst -> ev -> mst
+
+val track_idle_stamp : snap list -> mst -> snap -> mst
 
 val track : config -> mst -> op -> opobs -> mst
 
@@ -644,6 +651,8 @@ val share_conn_since : mst -> key option -> nat -> bool
 val h2_flying : bool -> config -> mst -> nat -> key option -> bool
 
 val chk_ev_C04 : bool -> config -> opobs -> mst -> ev -> bool
+
+val no_parked_while_waiting : config -> mst -> opobs -> bool
 
 val chk_C04 : bool -> config -> mst -> op -> opobs -> bool
 
